@@ -147,6 +147,7 @@ def build(ctx):
     ctx.validation_detail.append({'cli_findings_on_this_tree': f})
 
     part_root_only(ctx)
+    part_from_target(ctx)
 
 
 # ======================================================================================= target selection without -p / --all
@@ -233,6 +234,50 @@ def part_root_only(ctx):
                 env_ok = [mi != o_ for o_ in others] + [z3.Implies(J.e == o_, z3.BoolVal(False)) for o_ in others]
                 cls = [(KF_SUBDIR, z3.And(z3.BoolVal(k > 1), J.e != mi))]
                 ctx.prop('root-only/k=%d/p%d/current-package=%d/all-its-targets-are-selected' % (k, pi, i), o.state.pc + env_ok, z3.BoolVal(not all_mine), [], rp, classes=cls, twin=False)
+    eng.stubs = []
+    eng.lenient = False
+    eng.inline_only = None
+
+
+# ======================================================================================= the identity of a target is its canonical path
+def part_from_target(ctx):
+    """Target::from_target: the path kept for a target is fs::canonicalize(src_path) whenever that succeeds (else the path as given),
+    so two spellings of one file (a/../shared/x.rs, shared/x.rs) are one element of the BTreeSet; kind and edition are copied."""
+    from mirsym.engine import StrSort
+    eng = ctx.engine(('cargo-fmt',), loop_bound=16)
+    name = eng.find('from_target', self_ty='Target', file='src/cargo-fmt/main.rs')
+    rp = make_replay(ctx)
+    eng.stubs = []
+    eng.lenient = True
+    eng.inline_only = [re.compile(r'from_target$')]
+    raw = StrVal(e=z3.Const('src_path', StrSort))
+    canon = StrVal(e=z3.Const('canonical(src_path)', StrSort))
+    can_ok = z3.Bool('canonicalize.ok')
+    eng.type_models = [(re.compile(r'Utf8PathBuf$'), lambda e, s_, b, t: raw)]
+    eng.stub(r'^<PathBuf as From<&Utf8PathBuf>>::from$', lambda e, s_, a, c: deref(e, s_, a[0]), 'PathBuf::from(&Utf8PathBuf) = the same path value')
+    eng.stub(r'(^|::)canonicalize::<', lambda e, s_, a, c: Enum('Result', z3.If(can_ok, z3.BitVecVal(0, 64), z3.BitVecVal(1, 64)), {0: Tup([canon]), 1: Tup([Opaque('io::Error', 'c')])}),
+             'fs::canonicalize(p) = Ok(canonical(p)) | Err, symbolic')
+    eng.stub(r'Path::is_absolute$|Path::is_relative$|Path::has_root$', lambda e, s_, a, c: e.fresh_bool('path_predicate'), 'syntactic path predicates: symbolic')
+    st = State()
+    tgt = eng.ref_to(st, Opaque('cargo_metadata::Target', 'tgt'), False, 'target')
+    try:
+        outs = ctx.check_outcomes(eng.run(name, [tgt], st), 'Target::from_target')
+    finally:
+        eng.type_models = []
+    tf = [n for n, _ in eng.src.struct_fields('Target', 'src/cargo-fmt/main.rs')]
+    nret = 0
+    for pi, o in enumerate(outs):
+        if o.kind != 'ret':
+            continue            # kind[0] on an empty kind list panics: cargo metadata always gives at least one kind (environment)
+        nret += 1
+        pth = deref(eng, o.state, o.value.items[tf.index('path')])
+        if not (isinstance(pth, StrVal) and pth.e is not None):
+            ctx.prop('from_target/p%d/path-is-a-path-value' % pi, o.state.pc, z3.BoolVal(True), [can_ok], rp, twin=False)
+            continue
+        ctx.prop('from_target/p%d/keeps-the-canonical-path-when-there-is-one' % pi, o.state.pc, z3.And(can_ok, pth.e != canon.e), [can_ok], rp)
+        ctx.prop('from_target/p%d/keeps-the-given-path-otherwise' % pi, o.state.pc, z3.And(z3.Not(can_ok), pth.e != raw.e), [can_ok], rp, twin=False)
+    if not nret:
+        raise Inconclusive('Target::from_target has no returning path')
     eng.stubs = []
     eng.lenient = False
     eng.inline_only = None
